@@ -226,8 +226,6 @@ Go(s, evs, k) ==
            [] OTHER -> Finish(s, evs, "none", 0, 0)
     [] k = "in_pending" ->
          IF Kind = "fe" /\ s.should THEN Go([s EXCEPT !.should = FALSE], evs, "fill")
-         ELSE IF Kind = "mu" /\ Mut # "legacy_mu_pending" /\ SumFilled(s) = 0
-              THEN Finish(s, evs, "none", 0, 0)          \* repaired: every group drained during this call
          ELSE Finish(s, evs, "pending", 0, 0)
     [] k = "in_ready" ->
          CASE Kind = "fe" -> Go([s EXCEPT !.should = FALSE], evs, "fill")
